@@ -198,6 +198,8 @@ def generic_forms(ctx, st, pt):
             feats = ['glycan']
         else:
             v = round(rng.uniform(-200, 900), rng.choice([1, 3, 5]))
+            if v == 0:
+                v = 0.0     # never write '+-0.0'
             base, mono, avg, want_comp = f'Obs:{"+" if v >= 0 else ""}{v!r}', v, v, None
             feats = ['obs']
         text, mult = base, 1
